@@ -110,6 +110,9 @@ class RefSystem:
         for p in plist:
             if self.resolve(p) is None:
                 return "unknown parent"
+        res_ = [self.resolve(p) for p in plist]
+        if len(set(res_)) < len(res_):
+            return "duplicate parents"
         r = self._name_rule(spec["name"], "" if spec["kind"] in LOADS else rail, None)
         if r:
             return r
@@ -179,7 +182,8 @@ class RefSystem:
 
     def add_comp(self, parent, spec, group, rail):
         plist = parent if isinstance(parent, list) else [parent]
-        self._add(spec, [self.resolve(p) for p in plist], group, rail)
+        res = [self.resolve(p) for p in plist]
+        self._add(spec, [p for i, p in enumerate(res) if p not in res[:i]], group, rail)
 
     def change_comp(self, name, spec, group, rail):
         new = spec["name"]
